@@ -3,7 +3,7 @@
     exception -> notification table, of the vendor id ... in /repo breaks this file. *)
 From Coq Require Import ZArith List.
 From VLib Require Import Bytes.
-From IkeSa Require Import Gen.IkeFacts Shell Hdl.
+From IkeSa Require Import Gen.IkeFacts Shell Transitions Hdl.
 Import ListNotations.
 Open Scope Z_scope.
 
@@ -45,4 +45,23 @@ Lemma exception_notifications_agree :
   nty (notify_of X_InvalidSyntax) = G_EXC_InvalidSyntax /\
   nty (notify_of X_PayloadNotFound) = G_N_INVALID_SYNTAX /\ nty (notify_of X_IkeSaError) = G_N_INVALID_SYNTAX /\
   nty (notify_of X_StateError) = G_N_INVALID_SYNTAX /\ nty (notify_of X_Other) = G_N_INVALID_SYNTAX.
+Proof. repeat split; reflexivity. Qed.
+
+(** _check_in_states / assert lists of every handler = the admission table regenerated from the source *)
+Lemma admissions_agree :
+  ADM_process_ike_sa_init_request = admitted_in FN_process_ike_sa_init_request /\
+  ADM_process_ike_auth_request = admitted_in FN_process_ike_auth_request /\
+  ADM_process_ike_sa_init_response = admitted_in FN_process_ike_sa_init_response /\
+  ADM_process_ike_auth_response = admitted_in FN_process_ike_auth_response /\
+  ADM_process_create_child_sa_response = admitted_in FN_process_create_child_sa_response /\
+  ADM_process_informational_response = admitted_in FN_process_informational_response /\
+  states_range ST_ESTABLISHED (ST_REKEYED + 1) = admitted_in FN_process_informational_request /\
+  states_range ST_ESTABLISHED ST_REKEYED = admitted_in FN_process_create_child_sa_request /\
+  ADM_generate_established = admitted_in FN_generate_create_child_sa_request /\
+  ADM_generate_established = admitted_in FN_generate_delete_child_sa_request /\
+  ADM_generate_established = admitted_in FN_generate_rekey_ike_sa_request /\
+  ADM_generate_established = admitted_in FN_generate_dead_peer_detection_request /\
+  ADM_generate_delete_ike_sa_request = admitted_in FN_generate_delete_ike_sa_request /\
+  ADM_generate_ike_sa_init_request = admitted_in FN_generate_ike_sa_init_request /\
+  ADM_generate_ike_auth_request = admitted_in FN_generate_ike_auth_request.
 Proof. repeat split; reflexivity. Qed.
